@@ -8,7 +8,7 @@
   TL/TD  entries are accepted in any order: dispatch depends only on the id just read
   SD  a decoding error inside an entry fails the whole read (status discipline on every table function)
 """
-from .. import facts, report, tablerules, sd, ir
+from .. import facts, report, tablerules, sd, ir, rwrules
 from . import c10, c16
 
 
@@ -18,10 +18,14 @@ def rules(chk, db):
     for r in ('T.SD1', 'T.SD2', 'T.SD3', 'T.SD4'):
         chk.counts[r] = 10
     c16.rules(chk, db, prefix='BR.', only={'nop::BoundedReader'})
+    # "exactly the surplus bytes are skipped": Skip of the underlying stream / fd readers must skip all of them or fail
+    chk.rule('ST', 'stream reader primitives move exactly the requested bytes and report the stream state', minimum=3)
+    chk.rule('SS', 'stream reader status mapping', minimum=1)
+    rwrules.check_stream_class(chk, db, 'nop::StreamReader', 'reader', 'ST', 'SS')
 
 
 def run(chk, db):
-    facts.gate(chk, db, ['nop/base/table.h', 'nop/utility/bounded_reader.h'])
+    facts.gate(chk, db, ['nop/base/table.h', 'nop/utility/bounded_reader.h', 'nop/utility/stream_reader.h'])
     rules(chk, db)
     chk.explanation = (
         'Guard-to-error rules and framing rules on the symbolic paths of the table decoder for every probe table; status discipline on the '
